@@ -5,23 +5,40 @@ from . import abstraction as ab
 from .worker import guarded
 
 
-def render(lines):
+def label_text(kind, x):
+    """the token of an abstract label: <<"ok", glyph, symbols...>> or <<"bad", raw>>"""
+    if x[0] == "bad":
+        return ab.dec(x[1])
+    if kind == "pda":
+        return "%s,%s%s" % tuple(ab.dec(y) for y in x[2:5])
+    if kind == "tm":
+        return "%s%s,%s" % tuple(ab.dec(y) for y in x[2:5])
+    return ab.dec(x[2])
+
+
+def render(lines, kind="dfa"):
     out = []
     for l in lines:
         if l["k"] == "skip":
             out.append("% comment")
         elif l["k"] == "kw":
-            out.append(" ".join(l["t"]))
+            out.append(" ".join(ab.dec(x) for x in l["t"]))
         elif l["k"] == "tr":
-            out.append(" ".join(l["t"][:2] + [x[2] for x in l["t"][2:]]))
+            out.append(" ".join([ab.dec(x) for x in l["t"][:2]] + [label_text(kind, x) for x in l["t"][2:]]))
         else:
-            out.append(" ".join([l["k"]] + l["t"]))
+            out.append(" ".join([l["k"]] + [ab.dec(x) for x in l["t"]]))
     return "\n".join(out)
 
 
 def norm(o):
-    return {"Q": sorted(o["Q"]), "S": sorted(o["S"]), "T": sorted([list(t) for t in o["T"]]), "q0": o["q0"],
-            "F": sorted(o["F"]), "eps": o["eps"]}
+    r = {"Q": sorted(o["Q"]), "S": sorted(o["S"]), "T": sorted([list(t) for t in o["T"]]), "q0": o["q0"]}
+    for k in ("F", "G"):
+        if k in o:
+            r[k] = sorted(o[k])
+    for k in ("eps", "qa", "qr", "blank"):
+        if k in o:
+            r[k] = o[k]
+    return r
 
 
 def replay_line(line):
@@ -29,19 +46,21 @@ def replay_line(line):
     real outcome with the operational model's outcome."""
     import gambatools.dfa_algorithms as da
     import gambatools.nfa_algorithms as na
+    import gambatools.pda_algorithms as pa
+    import gambatools.tm_algorithms as ta
     from .props import c17
     tr = json.loads(line) if isinstance(line, str) else line
     kind = tr["kind"]
-    text = render(tr["lines"])
+    text = render(tr["lines"], kind)
     src = {"kind": "gen_line", "line": tr}
     yield c17.one_event(kind, text, tr["lines"], src)
-    parser = da.parse_dfa if kind == "dfa" else na.parse_nfa
+    parser = {"dfa": da.parse_dfa, "nfa": na.parse_nfa, "pda": pa.parse_pda, "tm": ta.parse_tm}[kind]
     X, exc = guarded(lambda: parser(text))
     ev = {"op": "parser_replay", "kind": kind, "model_err": tr["err"], "exc": exc, "src": src,
           "expected": norm(tr["result"]) if tr["err"] == "none" else {},
           "actual": {}}
     if exc == "none":
-        a = ab.dfa(X) if kind == "dfa" else ab.nfa(X)
+        a = {"dfa": ab.dfa, "nfa": ab.nfa, "pda": ab.pda, "tm": ab.tm}[kind](X)
         ev["actual"] = norm(a)
     yield ev
 
